@@ -63,7 +63,6 @@ class World:
         self.shutting = shutting
         self.mainlog = mainlog
         self.nextpid = 5000
-        self.aborted = False
 
     # ---- (de)serialisation for replay files
     def to_json(self):
@@ -307,6 +306,7 @@ class Item:
     'line' (exactly `text`)"""
     def __init__(self, kind, prefix=None, contains=(), text=None, unknown=False, what=''):
         self.kind, self.prefix, self.contains, self.text, self.unknown, self.what = kind, prefix, list(contains), text, unknown, what
+        self.after_fault = False     # a target that comes after one whose request the server refused with a fault
 
     def matches(self, line):
         fw = any(w in line for w in _B().FAILWORDS)
@@ -345,12 +345,6 @@ def make_ns(g, p):
     return p if g == p else '%s:%s' % (g, p)
 
 
-# `remove a b` against a daemon that is shutting down: do_remove re-raises SHUTDOWN_STATE, one "error: ..." line is
-# printed and b is never asked (do_add words the fault per name).  Reported to the integrator as a possible finding of
-# the class of F35; the clause is off until that is decided (switching it on makes the check report
-# 'world-names-lost-after-fault:remove' on the tree as it is).
-NAMES_LOST_AFTER_SHUTDOWN_FAULT = False
-
 NAME_ACTIONS = ('start', 'stop', 'restart', 'signal', 'status', 'pid', 'clear', 'add', 'remove', 'update', 'tail', 'fg')
 UPCHECKED = ('start', 'stop', 'restart', 'signal', 'status', 'pid', 'clear', 'tail', 'fg')
 
@@ -375,10 +369,12 @@ def spec(action, arg, w):
         e.fail()
         e.need_error = True
         e.check_extra = False
-        if action == 'add' or (action == 'remove' and NAMES_LOST_AFTER_SHUTDOWN_FAULT):
+        if action in ('add', 'remove'):
             e.items = [Item('err', what='%s %s refused: SHUTDOWN_STATE' % (action, n)) for n in names]
+            for it in e.items[1:]:
+                it.after_fault = True
             e.check_extra = True
-            e.lost_kind = 'world-names-lost-after-fault:' + action if action == 'remove' else None
+            e.lost_kind = 'world-names-lost-after-fault:' + action
         return e
     if action in ('start', 'stop', 'restart', 'signal', 'clear'):
         sig = None
@@ -495,16 +491,16 @@ def spec(action, arg, w):
             return all(c in (SUCCESS, F['NOT_RUNNING']) for c in codes)
         def refused(g, what):
             # a fault ends the action (the remaining groups are not asked about: outside the statement)
+            # F47 (open): do_update re-raises the fault and never handles the groups after this one; the statement
+            # wants a line for each of them.  The server state then differs as a consequence: not reported twice.
             e.items.append(Item('err', what='%s %s refused' % (what, g)))
             e.fail()
+            e.lost_kind = 'world-names-lost-after-fault:update'
             e.check_state = False
-            w.aborted = True
         for kind, gs in (('removed', removed), ('changed', changed), ('added', added)):
             for g in gs:
                 if valid and g not in valid:
                     continue
-                if w.aborted:
-                    return e
                 if kind in ('removed', 'changed'):
                     if not stop_group(g):
                         e.items.append(Item('err', g + ': ', what='stop of %s failed' % g))
@@ -518,6 +514,10 @@ def spec(action, arg, w):
                         refused(g, 'add')
                         continue
                 e.items.append(Item('ok', g + ': ', what='%s %s' % (kind, g)))
+        seen = False
+        for it in e.items:
+            it.after_fault = seen
+            seen = seen or it.what.endswith(' refused')
         return e
     if action == 'tail':
         a = list(names)
@@ -600,11 +600,14 @@ def monitor_world(ctx, r, line, wjson, wafter):
         elif arg.split()[0] == '-f' and e.whole_output not in r.raw + r.proc_out:
             bad('world-output-differs:' + action, 'the server sent %r, the client printed something else' % e.whole_output)
     got, miss_items, extra_lines = assign(e.items, lines)
+    lost = False
     for i in miss_items:
         it = e.items[i]
-        if e.lost_kind:
-            bad(e.lost_kind, 'a fault for one name ended the whole action: no result line for (%s)' % it.what)
-            break
+        if e.lost_kind and it.after_fault:
+            if not lost:
+                bad(e.lost_kind, 'a fault for one target ended the whole action: no result line for (%s); expected lines for %r' % (it.what, e.items))
+            lost = True
+            continue
         if it.unknown:
             bad('world-unknown-name-no-error-line:' + action, 'no error line for the unknown name (%s); expected lines for %r' % (it.what, e.items))
         else:
